@@ -253,3 +253,53 @@ Proof.
   unfold static_okb in H. apply andb_true_iff in H as [H _]. apply andb_true_iff in H as [H1 _].
   now apply parser_reloc_lemma.
 Qed.
+
+(* ------------------------------------------------------------------ which primitive parse_attribute uses *)
+
+(* the forms whose value is an offset into another section: read_offset *)
+Lemma attr_offset_forms_lemma : forall (A : Type) (k : list N -> prog A) (fuel : nat) (e : enc) (spec : aspec) (form : N),
+  In form [DW_FORM_strp; DW_FORM_sec_offset; DW_FORM_strp_sup; DW_FORM_line_strp; DW_FORM_GNU_ref_alt; DW_FORM_GNU_strp_alt] ->
+  exists tag, p_attr_direct k fuel e spec form = POffset (fmt64 e) (fun v => k [tag; v]).
+Proof.
+  intros A k fuel e spec form H. cbn [In] in H.
+  repeat (destruct H as [<-|H]; [eexists; reflexivity|]). destruct H.
+Qed.
+
+Lemma attr_addr_form_lemma : forall (A : Type) (k : list N -> prog A) (fuel : nat) (e : enc) (spec : aspec),
+  p_attr_direct k fuel e spec DW_FORM_addr = PAddr (address_size e) (fun v => k [T_Addr; v]).
+Proof. reflexivity. Qed.
+
+Lemma attr_ref_addr_form_lemma : forall (A : Type) (k : list N -> prog A) (fuel : nat) (e : enc) (spec : aspec),
+  p_attr_direct k fuel e spec DW_FORM_ref_addr =
+  if version e =? 2 then PSized (address_size e) (fun v => k [T_DebugInfoRef; v])
+  else POffset (fmt64 e) (fun v => k [T_DebugInfoRef; v]).
+Proof. reflexivity. Qed.
+
+(* constants, unit-local references, signatures, supplementary-file references of fixed width, indices: plain *)
+Lemma attr_plain_forms_lemma : forall (A : Type) (k : list N -> prog A) (fuel : nat) (e : enc) (spec : aspec) (form : N),
+  In form [DW_FORM_data1; DW_FORM_data2; DW_FORM_data16; DW_FORM_ref1; DW_FORM_ref2; DW_FORM_ref4; DW_FORM_ref8;
+           DW_FORM_ref_sig8; DW_FORM_ref_sup4; DW_FORM_ref_sup8; DW_FORM_strx1; DW_FORM_strx2; DW_FORM_strx3;
+           DW_FORM_strx4; DW_FORM_addrx1; DW_FORM_addrx2; DW_FORM_addrx3; DW_FORM_addrx4] ->
+  exists n tag, p_attr_direct k fuel e spec form = PU n (fun v => k [tag; v]).
+Proof.
+  intros A k fuel e spec form H. cbn [In] in H.
+  repeat (destruct H as [<-|H]; [do 2 eexists; reflexivity|]). destruct H.
+Qed.
+
+Lemma attr_leb_forms_lemma : forall (A : Type) (k : list N -> prog A) (fuel : nat) (e : enc) (spec : aspec) (form : N),
+  In form [DW_FORM_udata; DW_FORM_ref_udata; DW_FORM_strx; DW_FORM_addrx; DW_FORM_loclistx; DW_FORM_rnglistx;
+           DW_FORM_GNU_str_index; DW_FORM_GNU_addr_index] ->
+  exists tag, p_attr_direct k fuel e spec form = PUleb (fun v => k [tag; v]).
+Proof.
+  intros A k fuel e spec form H. cbn [In] in H.
+  repeat (destruct H as [<-|H]; [eexists; reflexivity|]). destruct H.
+Qed.
+
+(* the line-table variant: the four string-offset forms and sec_offset are read_offset *)
+Lemma line_attr_offset_forms_lemma : forall (A : Type) (sfuel : nat) (fmt md5 : bool) (k : list N -> prog A) (form : N),
+  In form [DW_FORM_strp; DW_FORM_sec_offset; DW_FORM_strp_sup; DW_FORM_line_strp; DW_FORM_GNU_strp_alt] ->
+  exists tag, p_line_attr sfuel fmt md5 form k = POffset fmt (fun v => k [tag; v]).
+Proof.
+  intros A sfuel fmt md5 k form H. cbn [In] in H.
+  repeat (destruct H as [<-|H]; [eexists; reflexivity|]). destruct H.
+Qed.
